@@ -158,9 +158,13 @@ def sizeNat (f : DField) : Nat :=
 
 def sizeTotal (fs : List DField) : Nat := (fs.map sizeNat).sum
 
+/-- `strings.HasPrefix(name, "Message")` and `name[len("Message"):]`, on the characters of the name -/
+def hasMsgPrefix (n : String) : Bool := "Message".toList.isPrefixOf n.toList
+def msgSuffix (n : String) : String := String.ofList (n.toList.drop 7)
+
 /-- what Initialize stores once every check has passed -/
 def mkRW (s : GoStruct) (fs : List DField) : RW :=
-  let msgName := msgGoToDef (s.name.drop 7).toString
+  let msgName := msgGoToDef (msgSuffix s.name)
   let sizeX := fs.foldl (fun a f => a + f.size) (0 : UInt8)
   let sizeN := fs.foldl (fun a f => if f.isExt then a else a + f.size) (0 : UInt8)
   let sorted := sortFields fs
@@ -168,7 +172,7 @@ def mkRW (s : GoStruct) (fs : List DField) : RW :=
     crcExtra := crcExtraOf msgName sorted, nfields := fs.length }
 
 def init (s : GoStruct) : Except InitErr RW :=
-  if !s.name.startsWith "Message" then throw .namePrefix else
+  if !hasMsgPrefix s.name then throw .namePrefix else
   match initFields 0 s.fields with
   | .error e => .error e
   | .ok fs =>
